@@ -1,0 +1,62 @@
+package cmd
+
+import (
+	"os"
+	"path/filepath"
+)
+
+// replaceFileAtomic replaces the content of the file at path with data so that
+// the path always names either the complete previous content or the complete
+// new content, even if the process is interrupted or a write fails part-way.
+//
+// The data is written to a temporary file in the same directory, flushed to
+// stable storage, given the permission bits of the file being replaced
+// (defaultPerm if the file does not exist yet) and then renamed over the
+// original. On any failure the temporary file is removed and the original is
+// left untouched. A symbolic link at path is followed, so the link itself is
+// preserved and its target is the file that gets replaced.
+func replaceFileAtomic(path string, data []byte, defaultPerm os.FileMode) (err error) {
+	target := path
+	if resolved, evalErr := filepath.EvalSymlinks(path); evalErr == nil {
+		target = resolved
+	}
+
+	perm := defaultPerm.Perm()
+	if info, statErr := os.Stat(target); statErr == nil {
+		perm = info.Mode().Perm()
+	}
+
+	dir, base := filepath.Split(target)
+	if dir == "" {
+		dir = "."
+	}
+	tmp, err := os.CreateTemp(dir, "."+base+".tmp-*")
+	if err != nil {
+		return err
+	}
+	tmpName := tmp.Name()
+	closed := false
+	defer func() {
+		if err != nil {
+			if !closed {
+				_ = tmp.Close()
+			}
+			_ = os.Remove(tmpName)
+		}
+	}()
+
+	if _, err = tmp.Write(data); err != nil {
+		return err
+	}
+	if err = tmp.Chmod(perm); err != nil {
+		return err
+	}
+	if err = tmp.Sync(); err != nil {
+		return err
+	}
+	closed = true
+	if err = tmp.Close(); err != nil {
+		return err
+	}
+	return os.Rename(tmpName, target)
+}
